@@ -23,7 +23,8 @@ VARIABLES
   startVoters,  \* membership at the start of the current block
   dirty,        \* the membership changed since the start of the current block
   bal,          \* [Addr \cup {"ms"} -> Nat] balances of the deposit token
-  qx,           \* further query answers: [thrq, lvoters, voteq] (Threshold{}, ListVoters{}, Vote{})
+  qx,           \* further observations: [thrq, lvoters, voteq] (Threshold{}, ListVoters{}, Vote{}) and dtokfail,
+                \* the failure switch of the cw20 deposit token (fault injection: refunds fail while it is on)
   now, out,
   \* histories, one entry per proposal
   snap,         \* membership snapshot the proposal was opened against
@@ -100,7 +101,8 @@ ExecAuthorised(by) == \/ cfg.executor = "none"
                       \/ cfg.executor = by
 C03_ExecuteMustBeAdmitted == Step /\ E.act = "execute" /\ Has(Pid) =>
   LET p == props[Pid] IN
-  (execd[Pid] = 0 /\ ~closedH[Pid] /\ PassedNow(p, now') /\ ExecAuthorised(E.by) /\ Harmless(p.msgs)) => Ok \/ KF3q(Pid)
+  (execd[Pid] = 0 /\ ~closedH[Pid] /\ PassedNow(p, now') /\ ExecAuthorised(E.by) /\ Harmless(p.msgs)
+     /\ ~(p.dep.kind = "cw20" /\ qx.dtokfail)) => Ok \/ KF3q(Pid)
 C03_CloseAdmitted == Step /\ IsOk("close") =>
   /\ Has(Pid)
   /\ KF3q(Pid) \/ (execd[Pid] = 0 /\ Expired(props[Pid].expires, now') /\ ~PassedNow(props[Pid], now'))
@@ -198,7 +200,8 @@ Recoverable(id, t) ==
   LET p == props[id] IN
   /\ p.dep.kind # "none" /\ p.dep.refund /\ held[id] = 1 /\ execd[id] = 0 /\ ~closedH[id]
   /\ Expired(p.expires, t) /\ ~PassedNow(p, t)
-C15_CloseMustSucceed == Step /\ E.act = "close" /\ Has(Pid) /\ Recoverable(Pid, now') => Ok \/ KF3q(Pid) \/ KF6(Pid)
+C15_CloseMustSucceed == Step /\ E.act = "close" /\ Has(Pid) /\ Recoverable(Pid, now')
+                          /\ ~(props[Pid].dep.kind = "cw20" /\ qx.dtokfail) => Ok \/ KF3q(Pid) \/ KF6(Pid)
 \* ------------------------------------------------------------------ beyond the listed properties
 \* Threshold{} reports the configured rule with the current total; ListVoters{} lists exactly the current
 \* members; Vote{id, voter} reports exactly the ballots ListVotes{} reports
